@@ -72,6 +72,7 @@ def variant_case(inp):
 class S(core.Stage):
     module = "C05Cases"
     shard_size = 400
+    exec_time_limit = 45      # a pattern with a large symmetry group makes the exact analysis / the many writings slow: counted as skipped
 
     def __init__(self, name, inputs):
         self.name, self._inputs = name, inputs
